@@ -1157,6 +1157,23 @@ func c03reset() {
 	}
 }
 
+// c03Explore = vsched.Explore, except that a failure of the engine's self check "the same schedule run twice gives the same
+// trace and the same verdict" (a panic of the engine; it never fails on the pinned tree) is returned instead of ending
+// the shard: a tree whose behaviour depends on what earlier executions left behind (package-level state: a counter, a
+// cache, a sync.Once) is reported as a violation (control-run/not-deterministic) and the job is given up.
+func c03Explore(cfg vsched.Config, body func(x *vsched.Exec)) (st *vsched.Stats, diverged string) {
+	defer func() {
+		if e := recover(); e != nil {
+			if s, ok := e.(string); ok && strings.HasPrefix(s, "vsched: replay of a") {
+				st, diverged = &vsched.Stats{Outcomes: map[string]int64{}, TraceHashes: map[uint64]struct{}{}}, s
+				return
+			}
+			panic(e)
+		}
+	}()
+	return vsched.Explore(cfg, body), ""
+}
+
 func c03run(r *verifkit.Result, p c03param, bound int, mode string, maxExec int64) {
 	cfg := vsched.Config{Name: p.Scn, Preemptions: bound, DelayBounding: mode == "delay", Horizon: 4000, MaxExec: maxExec, NShards: 1,
 		Expired: r.Expired, Reset: c03reset, Full: mode == "full", Policy: p.Policy}
@@ -1187,7 +1204,14 @@ func c03run(r *verifkit.Result, p c03param, bound int, mode string, maxExec int6
 		}
 		return c + "|" + d
 	}
-	st := vsched.Explore(cfg, func(x *vsched.Exec) { x.Obs = c03body(p) })
+	st, div := c03Explore(cfg, func(x *vsched.Exec) { x.Obs = c03body(p) })
+	if div != "" {
+		q := p
+		q.Bound = bound
+		r.Violate("obiiter/"+p.Scn+"/control-run/not-deterministic", fmt.Sprintf("%s parts=%v arrival=%v parts2=%v workers=%d size=%d cfg=%v mode=%s: %s", p.Scn, p.Parts, p.Perm, fmt.Sprint(p.Parts2, p.Perm2), p.Workers, p.Size, p.Cfg, mode, div), q)
+		r.Cap(fmt.Sprintf("exploration of scenario %s given up: the same schedule does not give the same execution twice", p.Scn))
+		return
+	}
 	r.Eval(st.Executions)
 	r.Trace(st.Executions)
 	r.Trans(st.Points)
@@ -1195,6 +1219,7 @@ func c03run(r *verifkit.Result, p c03param, bound int, mode string, maxExec int6
 	r.Count("leaked_threads", st.LeakedThreads)
 	r.Count("hb_states_"+mode, st.States)
 	r.Count("executions_"+mode, st.Executions)
+	r.Count("schedules_executed", st.Executions)
 	r.Count("scenario_params", 1)
 	for h := range st.TraceHashes {
 		r.StateH(h)
@@ -1376,5 +1401,5 @@ func TestVerifC03A(t *testing.T) {
 		c03run(r, j.p, j.bound, j.mode, j.maxExec)
 		r.Count("jobs_"+j.mode, 1)
 	}
-	r.RequireNonVacuous("outcome_completed")
+	r.RequireNonVacuous("schedules_executed") // what the harness did; how the executions ended is the tree's answer
 }
